@@ -448,10 +448,8 @@ class Account:
         seed, self.init_vectors['seed'] = aes_decrypt(password, self.seed)
         if not seed:
             return ""
-        try:
-            Mnemonic().mnemonic_decode(seed)
-        except IndexError:
-            # failed to decode the seed, this either means it decrypted and is invalid
+        if self.get_private_key_from_seed(self.ledger, seed, '').public_key.address != self.public_key.address:
+            # the seed does not regenerate this account's key, this either means it decrypted and is invalid
             # or that we hit an edge case where an incorrect password gave valid padding
             raise ValueError("Failed to decode seed.")
         return seed
